@@ -119,6 +119,38 @@ def peval(e: ast.AST, env: dict[str, T.Any]) -> T.Any:
             return {"len": len, "min": min, "max": max, "bool": bool, "int": int, "abs": abs}[e.func.id](*args)
         except Exception:  # noqa: BLE001
             return UNKNOWN
+    if isinstance(e, (ast.ListComp, ast.SetComp, ast.GeneratorExp)) and len(e.generators) == 1 and not e.generators[0].is_async:
+        g = e.generators[0]
+        it = peval(g.iter, env)
+        if it is UNKNOWN or isinstance(it, Sym) or not isinstance(it, (list, tuple, set, frozenset)):
+            return UNKNOWN
+        out = []
+        for item in (sorted(it, key=repr) if isinstance(it, (set, frozenset)) else it):
+            sub = dict(env)
+            if isinstance(g.target, ast.Name):
+                sub[g.target.id] = item
+            elif isinstance(g.target, (ast.Tuple, ast.List)) and all(isinstance(t, ast.Name) for t in g.target.elts) and isinstance(item, (tuple, list)) and len(item) == len(g.target.elts):
+                for t, v in zip(g.target.elts, item):
+                    sub[t.id] = v
+            else:
+                return UNKNOWN
+            keep = True
+            for c in g.ifs:
+                r = peval(c, sub)
+                if r is UNKNOWN:
+                    return UNKNOWN
+                if not r:
+                    keep = False
+                    break
+            if keep:
+                v = peval(e.elt, sub)
+                if v is UNKNOWN:
+                    return UNKNOWN
+                out.append(v)
+        try:
+            return set(out) if isinstance(e, ast.SetComp) else out
+        except TypeError:
+            return UNKNOWN
     if isinstance(e, ast.Call) and isinstance(e.func, ast.Attribute) and e.func.attr in ("lower", "upper") and not e.args:
         v = peval(e.func.value, env)
         if isinstance(v, (bytes, str)):
